@@ -37,7 +37,7 @@ def poly(pts):
     return p.glyph()
 
 
-def mkfont(r, npal):
+def mkfont(r, npal, zero_advance=False):
     from fontTools.fontBuilder import FontBuilder
     from fontTools.pens.ttGlyphPen import TTGlyphPen
 
@@ -51,6 +51,8 @@ def mkfont(r, npal):
     fb.setupCharacterMap({0x41: "A", 0x42: "B"})
     glyphs = {".notdef": poly([(0, 0), (0, 10), (10, 10), (10, 0)]), "A": TTGlyphPen(None).glyph(), "B": TTGlyphPen(None).glyph()}
     hm = {".notdef": (1000, 0), "A": (1000, 0), "B": (r.choice([1000, 600, 1400]), 0)}
+    if zero_advance:
+        hm["B"] = (0, 0)  # a colour glyph with no advance (a combining mark)
     for n, pts in shapes.items():
         glyphs[n] = poly(pts)
         hm[n] = (1000, min(p[0] for p in pts))
@@ -73,7 +75,7 @@ def mkfont(r, npal):
     return fb.font, shapes_all, (asc, desc)
 
 
-PALIDX = [0, 1, 2, 3, 0xFFFF]
+PALIDX = [0, 1, 2, 3, 4, 0xFFFF]  # entry 4 is black in palette 0 (and not in the others)
 
 
 def stops(r):
@@ -146,7 +148,8 @@ def graph(r, shapes, depth, allow_colrglyph, PF, stats):
     return {
         "Format": PF.PaintComposite,
         "CompositeMode": "src_in",
-        "SourcePaint": {"Format": PF.PaintColrLayers, "Layers": [graph(r, shapes, depth + 1, allow_colrglyph, PF, stats) for _ in range(2)]},
+        # the group is a layer list, or - half of the time - a single sub-graph wrapped directly
+        "SourcePaint": {"Format": PF.PaintColrLayers, "Layers": [graph(r, shapes, depth + 1, allow_colrglyph, PF, stats) for _ in range(2)]} if r.random() < 0.5 else graph(r, shapes, max(depth + 1, 4), allow_colrglyph, PF, stats),
         "BackdropPaint": {"Format": PF.PaintSolid, "PaletteIndex": 4, "Alpha": r.choice([0.3, 0.5, 0.75])},
     }
 
